@@ -10,6 +10,7 @@
 //! with the model (time, allocation) but are visible to the monitors.
 mod alloc;
 mod c01;
+mod c03;
 mod c11;
 mod c08;
 mod c16;
@@ -109,6 +110,7 @@ fn main() {
                         c19::generate(&mut rng, &tier, &mut emit);
                     }
                     "C13" => c13::generate(&mut rng, &tier, &mut emit),
+                    "C03" | "C04" | "C05" => c03::generate(&mut rng, &prop, &tier, &mut emit),
                     "C12" => c12::generate(&mut rng, &tier, &mut emit),
                     "C17" => c17::generate_c17(&mut rng, &tier, &mut emit),
                     "C20" => c17::generate_c20(&mut rng, &tier, &mut emit),
